@@ -232,6 +232,10 @@ impl SynthFont {
 
     pub fn decode(genome: &[u16], p: &Profile) -> SynthFont {
         let mut g = Gen::new(genome);
+        // late knobs read from the last word so that they do not shift the meaning of any other word
+        let knob = genome.last().copied().unwrap_or(0);
+        let small_jitter = p.outlines && knob % 4 == 1;      // masters differ from a scaled default by at most 2 units per point
+        let big_upem = p.outlines && (knob / 4) % 4 == 1;    // 4096 units per em
         let mut h = g.fork(24);
         let n_axes = p.min_axes + h.below(p.max_axes - p.min_axes + 1);
         let upem = *h.pick(&[1000u16, 1000, 2048, 1024, 500]);
@@ -424,7 +428,7 @@ impl SynthFont {
                 if vertical { src.height = Some(upem as f64 + if si > 0 { sg.signed(50) as f64 } else { 0.0 }); }
                 for sk in &sks {
                     let mut pts = vec![];
-                    let jit = |k: usize, si: usize| -> (f64, f64) { if si == 0 { (0.0, 0.0) } else { let a = ((k * 31 + si * 17) % 41) as f64 - 20.0; let b = ((k * 13 + si * 29) % 37) as f64 - 18.0; (a, b) } };
+                    let jit = |k: usize, si: usize| -> (f64, f64) { if si == 0 { (0.0, 0.0) } else { let a = ((k * 31 + si * 17) % 41) as f64 - 20.0; let b = ((k * 13 + si * 29) % 37) as f64 - 18.0; if small_jitter { ((a / 10.0).round(), (b / 10.0).round()) } else { (a, b) } } };
                     let on = |k: usize, rr: f64, ang_off: f64| -> (f64, f64) {
                         let ang = (k as f64 + ang_off) / sk.n as f64 * std::f64::consts::TAU;
                         ((sk.cx + rr * ang.cos()) * mscale, (sk.cy + rr * ang.sin()) * mscale)
@@ -525,6 +529,7 @@ impl SynthFont {
             for s in sources.iter_mut() { s.norm.insert(at, 0.0); }
             for i in instances.iter_mut() { i.norm.insert(at, 0.0); }
         }
+        let upem = if big_upem { 4096 } else { upem };
         let mut f = SynthFont { upem, axes, sources, glyphs, glyph_order, skip_export, ps_names, categories_explicit: false, features: None, instances, rules: vec![], rules_processing_last: false, lib_filters: vec![] };
         // later facets: each in its own block of words appended after the older ones, so that genomes
         // of stored replays keep their meaning
